@@ -11,6 +11,8 @@ construct in the search thread. Legality of the list itself is C01's concern."""
 from facts import AnalysisBroken
 from prog import walk, kids, short, access_kind
 from rules import flow
+from rules.common import counting_for, for_init_const
+from rules.effects import single_def
 from rules.common import (thread_entries, uci_handlers, const_of, strip_casts, strip_conv,
                           expr_key, base_locals, string_literal_sites, in_loop,
                           enclosing_full_stmt, guard_facts, local_writes, written_value)
@@ -286,6 +288,61 @@ def check(ctx):
                'every path through %s (including early returns for draws, stops and cut-offs) first (re)defines this frame\'s PV' % short(f.name),
                site=f.loc(), detail={'path_blocks_without_pv_write': path})
     ctx.floor('C05.R4.pv-defined', n_pvd, 2, 'recursive search functions with a frame')
+
+    # ---- R4b the PV is printed from the positions it passes through ------------------------------------
+    # Position::uci(m) renders castling from the side to move of the position asked, so the k-th PV move has to be formatted
+    # by the root position advanced through the k moves before it.
+    from rules.norm import Norm
+    n_pp = 0
+    for fid in sorted(t_search):
+        f = p.funcs[fid]
+        if f.body is None:
+            continue
+        nmf = Norm(f)
+        for n, cfid, nm in f.calls():
+            if nm != 'engine::Position::uci':
+                continue
+            arg = nmf.s(kids(n)[1])
+            if '_pv_list[' not in arg:
+                continue
+            n_pp += 1
+            obj = strip_casts(kids(kids(n)[0])[0]) if kids(kids(n)[0]) else None
+            idx = arg.split('_pv_list[', 1)[1].rsplit(']', 1)[0]
+            if idx == '0' and obj is not None and short(obj.get('ref', {}).get('n', '')) == '_position':
+                ctx.ob('C05.R4.pv-print', '%s:%s' % (short(f.name), arg), True,
+                       'the first PV move is formatted by the root position', site=f.loc(n))
+                continue
+            loops = [a for a in f.ancestors(n) if a['k'] == 'ForStmt']
+            r = (obj or {}).get('ref', {})
+            ok, why = False, ''
+            if not loops or counting_for(f, loops[0]) is None or for_init_const(loops[0]) != 0:
+                why = 'not inside a counting loop from 0'
+            elif r.get('k') != 'Local':
+                why = 'formatted by %s, which is not a local copy advanced along the PV' % nmf.s(obj) if obj is not None else '?'
+            else:
+                lp = loops[0]
+                iv = next((x['name'] for x in f.all_nodes() if x['k'] == 'VarDecl' and x.get('id') == counting_for(f, lp)[0]), None)
+                init_ok = any(
+                    x['k'] == 'VarDecl' and x.get('id') == r['id'] and kids(x) and '_position' in nmf.s(kids(x)[0]) and
+                    not f.inside(x, lp) for x in f.all_nodes())
+                adv = [m for m, c2, nm2 in f.calls() if nm2 == 'engine::Position::do_move' and f.inside(m, lp) and
+                       kids(kids(m)[0]) and strip_casts(kids(kids(m)[0])[0]).get('ref', {}).get('id') == r['id'] and
+                       nmf.s(kids(m)[1]) == arg]
+                others = [m for m, c2, nm2 in f.calls() if f.inside(m, lp) and m is not n and m not in adv and
+                          kids(m) and kids(kids(m)[0]) and strip_casts(kids(kids(m)[0])[0]).get('ref', {}).get('id') == r['id'] and
+                          not (m.get('callee') or {}).get('const')]
+                c = f.cfg
+                pos_ = c.position(n)
+                # every path from the formatting call back to the loop head passes the advancing do_move
+                back = {lp['ch'][3]['i']} if lp['ch'][3] else set()
+                skipped = c.path_avoiding(pos_, {m['i'] for m in adv}, back) if (adv and back and pos_) else [0]
+                ok = bool(init_ok and adv and skipped is None and not others and idx == iv)
+                why = 'copy of the root: %s; advanced by do_move(%s) on every iteration: %s; other mutations: %d' % (
+                    init_ok, arg, bool(adv and skipped is None), len(others))
+            ctx.ob('C05.R4.pv-print', '%s:%s' % (short(f.name), arg), ok,
+                   'the k-th PV move is formatted by a copy of the root position that has been advanced through the k moves before it (%s)'
+                   % why, site=f.loc(n))
+    ctx.floor('C05.R4.pv-print', n_pp, 1, 'PV moves converted to text')
 
     # ---- R5 ordering only permutes ------------------------------------------------------
     om = p.fn('engine::MoveOrderer::order_moves')
